@@ -212,6 +212,7 @@ func sqlGraphReplay(run *core.Run, universe map[string]abs.Event, edges map[stri
 	queue := []string{initKey}
 	var findTraces []tv.Trace
 	nstate := 0
+	edgeNo := 0
 	for len(queue) > 0 {
 		sk := queue[0]
 		queue = queue[1:]
@@ -220,6 +221,19 @@ func sqlGraphReplay(run *core.Run, universe map[string]abs.Event, edges map[stri
 		for _, a := range labels {
 			es := edges[sk][a]
 			if len(es) == 0 {
+				continue
+			}
+			edgeNo++
+			selfLoop := len(es) == 1 && es[0].to == sk
+			if !run.Thorough() && (nstate+int(run.Seed))%2 != 0 {
+				// quick tier: the edges of every second state (by seed) are replayed on the real
+				// database; the others are only used to reach further states
+				for _, e := range es {
+					if _, seen := paths[e.to]; !seen {
+						paths[e.to] = append(append([]string{}, path...), a)
+						queue = append(queue, e.to)
+					}
+				}
 				continue
 			}
 			if err := st.Reset(); err != nil {
@@ -286,7 +300,11 @@ func sqlGraphReplay(run *core.Run, universe map[string]abs.Event, edges map[stri
 			}
 			// a few probe queries in this state, judged by TLC against the spec's live set
 			tr := tv.Trace{Name: fmt.Sprintf("state after %v+%s", path, a)}
-			for i := 0; i < 2; i++ {
+			nprobe := 2
+			if !run.Thorough() && selfLoop {
+				nprobe = 0 // quick tier: probe queries after state-changing edges only
+			}
+			for i := 0; i < nprobe; i++ {
 				fs := []abs.Filter{fu[r.Intn(len(fu))]}
 				if i == 1 && r.Intn(2) == 0 {
 					fs = append(fs, fu[r.Intn(len(fu))])
